@@ -22,6 +22,13 @@
 (* orders, all missing registrations, all stray token deliveries, all      *)
 (* receiver lists and every tamper class; `trail` records the calls for    *)
 (* replay on the real plugins.                                             *)
+(* Second strengthening round: the plugins in Eps2 own a SECOND endpoint   *)
+(* (entity id p + 10, see CryptoAbs) of the same kind and attributes as    *)
+(* the first, registered by the same RegLocal.  At the endpoint levels     *)
+(* MatchEp / Tokens / Encode / Decode range over ENTITIES: a sender can be *)
+(* matched with both endpoints of a receiving participant (one receiver-   *)
+(* specific key each), address any subset of them, tokens can go astray    *)
+(* between the two, and each of them decodes for itself.                   *)
 (***************************************************************************)
 EXTENDS CryptoAbs, TLC, Json
 
@@ -30,14 +37,19 @@ CONSTANTS Senders, Receivers,   \* disjoint subsets of P
           Others,               \* protection of the endpoint level not under test: subset of {"same", "none", "diff"}
           Astray,               \* TRUE: tokens may be delivered to the wrong plugin
           LooseKid,             \* FALSE: the lookup of the code.  TRUE: deliberately wrong lookup (negative control, MC_CryptoKeys_neg.cfg)
+          Eps2,                 \* subset of Receivers: the plugins that own a second endpoint (entity p + 10)
+          LooseList,            \* FALSE: the release rule of the code.  TRUE: deliberately wrong rule (negative control, MC_CryptoKeys_neg2.cfg)
           GenK,                 \* print every GenK-th explored edge as a replay (0: none)
-          GenC                  \* ... but every GenC-th edge that alters bytes an authorised receiver would have decoded
+          GenC,                 \* ... but every GenC-th edge that alters bytes an authorised receiver would have decoded
+          GenS                  \* ... and every GenS-th edge on which r holds the sender's key and ANOTHER endpoint of r's participant decodes the bytes (0: treat as the rest)
 
 VARIABLES cfg, local, mpart, mep, dk, ct, trail
 vars == <<cfg, local, mpart, mep, dk, ct, trail>>
 View == <<cfg, local, mpart, mep, dk, ct>>
 
-Pairs == (Senders \X Receivers) \cup (Receivers \X Senders)
+Pairs == (Senders \X Receivers) \cup (Receivers \X Senders)       \* participant level
+RecvEnts == Receivers \cup {Ep2(r) : r \in Eps2}                   \* receiving entities of the endpoint levels
+EPairs == (Senders \X RecvEnts) \cup (RecvEnts \X Senders)         \* endpoint level
 Cfgs == {c \in [lvl : Levels, kind : Kinds, oa : OAs, k256 : K256s, dir : Dirs, other : Others] :
             /\ (c.lvl = "payload" => ~c.oa /\ c.dir = "w2r")    \* no receiver-specific MACs on payloads; only writers send payloads
             /\ (c.lvl = "msg" => c.dir = "w2r")}                 \* direction is immaterial for participants
@@ -45,7 +57,7 @@ Cfgs == {c \in [lvl : Levels, kind : Kinds, oa : OAs, k256 : K256s, dir : Dirs, 
 Init ==
   /\ cfg \in Cfgs
   /\ local = {} /\ mpart = {} /\ mep = {}
-  /\ dk = [x \in Pairs |-> 0]
+  /\ dk = [x \in EPairs |-> 0]
   /\ ct = <<>>
   /\ trail = <<>>
 
@@ -53,6 +65,8 @@ Log(a) == trail' = Append(trail, a)
 
 \* matched at the level whose keys are under test
 MatchedAtLevel(p, q) == IF IsMsg(cfg) THEN <<p, q>> \in mpart ELSE <<p, q>> \in mep
+\* the receiving entities of the level under test (second endpoints play no part at message level)
+LevelRecv == IF IsMsg(cfg) THEN Receivers ELSE RecvEnts
 
 RegLocal(p) ==
   /\ p \notin local
@@ -68,14 +82,15 @@ MatchPart(p, q) ==
 
 MatchEp(p, q) ==
   /\ ~IsMsg(cfg)                                   \* endpoints play no part at message level
-  /\ <<p, q>> \in mpart /\ <<p, q>> \notin mep
+  /\ <<p, q>> \in EPairs
+  /\ <<PluginOf(p), PluginOf(q)>> \in mpart /\ <<p, q>> \notin mep
   /\ mep' = mep \cup {<<p, q>>}
   /\ Log([a |-> "MatchEp", p |-> p, q |-> q])
   /\ UNCHANGED <<cfg, local, mpart, dk, ct>>
 
 \* only senders' tokens matter for decoding what they send
 Tokens(p, q, d) ==
-  /\ p \in Senders /\ q \in Receivers /\ d \in Receivers
+  /\ p \in Senders /\ q \in LevelRecv /\ d \in LevelRecv
   /\ (d # q => Astray)
   /\ MatchedAtLevel(p, q)            \* p has receiver-specific encode material for q
   /\ MatchedAtLevel(d, p)            \* d has a handle for p
@@ -87,7 +102,7 @@ Tokens(p, q, d) ==
 Encode(p, to, frame, al) ==
   /\ Len(ct) < 1
   /\ p \in Senders /\ p \in local
-  /\ to \subseteq Receivers
+  /\ to \subseteq LevelRecv
   /\ (cfg.lvl = "payload") = (to = {})             \* payloads are not addressed
   /\ \A q \in to : MatchedAtLevel(p, q)
   /\ (cfg.dir = "r2w" => frame = "data")           \* an ACKNACK travels: no DATA/DATAFRAG choice
@@ -96,26 +111,37 @@ Encode(p, to, frame, al) ==
   /\ Log([a |-> "Encode", c |-> Len(ct) + 1, p |-> p, to |-> to, frame |-> frame, al |-> al])
   /\ UNCHANGED <<cfg, local, mpart, mep, dk>>
 
-Held(r, s) == IF <<r, s>> \in Pairs THEN dk[<<r, s>>] ELSE 0
+Held(r, s) == IF <<r, s>> \in EPairs THEN dk[<<r, s>>] ELSE 0
 EpInfo(r, s) == <<r, s>> \in mep
 
-Impl(r, s, c, t) == ImplDecode(LooseKid, cfg, Senders, ct[c], r, s, Held(r, s), EpInfo(r, s), t)
+\* who may be asked to decode: every plugin, and at the endpoint levels every second endpoint
+DecEnts == P \cup (IF IsMsg(cfg) THEN {} ELSE {Ep2(r) : r \in Eps2})
+\* the other endpoints of r's participant
+Sibs(r) == {x \in DecEnts : PluginOf(x) = PluginOf(r) /\ x # r}
+\* the code's decision for x alone on the untouched bytes
+Alone(x, s, c) == ImplDecode(LooseKid, FALSE, FALSE, cfg, Senders, ct[c], x, s, Held(x, s), EpInfo(x, s), "none")
+SibOk(r, s, c) == \E x \in Sibs(r) : Alone(x, s, c) = "plain"
+Impl(r, s, c, t) == ImplDecode(LooseKid, LooseList, SibOk(r, s, c), cfg, Senders, ct[c], r, s, Held(r, s), EpInfo(r, s), t)
 Applicable(r, s, c) == Tampers(cfg, Senders, local, ct[c], r, s, Held(r, s))
 
 Decode(r, s, c, t) ==
-  /\ r \in P /\ s \in Senders /\ r # s /\ r # ct[c].p
+  /\ r \in DecEnts /\ s \in Senders /\ PluginOf(r) # s /\ PluginOf(r) # ct[c].p
   /\ t \in Applicable(r, s, c)
   /\ Log([a |-> "Decode", r |-> r, s |-> s, c |-> c, t |-> t,
           expect |-> Impl(r, s, c, t),
-          base |-> Impl(r, s, c, "none")])       \* what the same call yields on the unaltered bytes
+          base |-> Impl(r, s, c, "none"),        \* what the same call yields on the unaltered bytes
+          \* the participant's release list has several candidates and is not empty: r holds decode material
+          \* for s, and the same bytes, unaltered, decode for a sibling endpoint of r
+          sib |-> (Held(r, s) # 0 /\ SibOk(r, s, c))])
   /\ UNCHANGED <<cfg, local, mpart, mep, dk, ct>>
 
 Next ==
   \/ \E p \in Senders \cup Receivers : RegLocal(p)
-  \/ \E x \in Pairs : MatchPart(x[1], x[2]) \/ MatchEp(x[1], x[2])
-  \/ \E p \in Senders, q, d \in Receivers : Tokens(p, q, d)
-  \/ \E p \in Senders, to \in SUBSET Receivers, frame \in {"data", "frag"}, al \in BOOLEAN : Encode(p, to, frame, al)
-  \/ \E r \in P, s \in Senders, c \in DOMAIN ct, t \in AllT : Decode(r, s, c, t)
+  \/ \E x \in Pairs : MatchPart(x[1], x[2])
+  \/ \E x \in EPairs : MatchEp(x[1], x[2])
+  \/ \E p \in Senders, q, d \in RecvEnts : Tokens(p, q, d)
+  \/ \E p \in Senders, to \in SUBSET RecvEnts, frame \in {"data", "frag"}, al \in BOOLEAN : Encode(p, to, frame, al)
+  \/ \E r \in P \cup {Ep2(x) : x \in Eps2}, s \in Senders, c \in DOMAIN ct, t \in AllT : Decode(r, s, c, t)
 
 Spec == Init /\ [][Next]_vars
 
@@ -125,9 +151,9 @@ Spec == Init /\ [][Next]_vars
 (* and tamper class of every reachable registration state - except for the *)
 (* named deviation S10.                                                    *)
 (***************************************************************************)
-Cases == {x \in P \X Senders \X (DOMAIN ct) \X AllT :
-            /\ x[1] # x[2]
-            /\ x[1] # ct[x[3]].p
+Cases == {x \in DecEnts \X Senders \X (DOMAIN ct) \X AllT :
+            /\ PluginOf(x[1]) # x[2]
+            /\ PluginOf(x[1]) # ct[x[3]].p
             /\ x[4] \in Applicable(x[1], x[2], x[3])}
 Out(x) == Impl(x[1], x[2], x[3], x[4])
 Auth(x) == Authorized(cfg, ct[x[3]], x[2], Held(x[1], x[2]), x[4])
@@ -142,6 +168,9 @@ Inv_S10IsADeviation        == \A x \in Cases : Auth(x) /\ DevS10(cfg, ct[x[3]]) 
 \* strengthening round: a header key id overwritten with the id of ANOTHER existing key (sibling level of the same
 \* sender, other entity level, receiver-specific key, another sender, the receiver itself, zero) never yields data
 Inv_KeyIdOfAnotherKeyNoData == \A x \in Cases : x[4] \in KidT => Out(x) = "nodata"
+\* second strengthening round: Inv_NoMacForMeNoData now also says that what one endpoint of a participant may decode
+\* never opens the door for its sibling (Cases ranges over both endpoints of the plugins in Eps2); the negative
+\* control MC_CryptoKeys_neg2.cfg (LooseList = TRUE) violates it
 \* vacuity guards are in MC_CryptoKeys_*.cfg as "never" properties checked by hand, see NOTES
 
 \* every edge on which the model says "plain" is replayed; alterations of bytes that the receiver would
@@ -151,6 +180,7 @@ GenEdge == LET a == trail'[Len(trail')] IN
            (GenK > 0 /\ a.a = "Decode" /\
               (\/ a.expect = "plain"
                \/ (a.base = "plain" /\ RandomElement(1..GenC) = 1)
+               \/ (GenS > 0 /\ a.sib /\ RandomElement(1..GenS) = 1)
                \/ RandomElement(1..GenK) = 1)) =>
-             PrintT("REPLAY " \o ToJson([cfg |-> cfg, senders |-> Senders, acts |-> trail']))
+             PrintT("REPLAY " \o ToJson([cfg |-> cfg, senders |-> Senders, eps2 |-> Eps2, acts |-> trail']))
 =============================================================================
